@@ -164,11 +164,11 @@ def run(ctx):
         log = []
         raw = []
         for i in range(len(forced) if forced is not None else nops):
-            if forced is None and tr.steps and rng.random() < 0.08:
+            again = rng.choice(tr.steps) if forced is None and tr.steps and rng.random() < 0.08 else None
+            if again is not None and gen.step_aligned(tr.doc, again):
                 # a step object that is already part of this history is recorded once more (steps are values: setting
                 # something back to what an earlier step set it to, redoing an edit) — refused like any step if it
                 # no longer applies
-                again = rng.choice(tr.steps)
                 name, args, thunk = "step_again", [again], (lambda s_: lambda tr_: tr_.step(s_))(again)
             else:
                 name, args, thunk = forced[i] if forced is not None else ops.plan_op(rng, info, tr.doc, docs, kinds)
@@ -302,6 +302,8 @@ def run(ctx):
             return
         others = []
         for target in rng.sample([res_doc, rng.choice(docs), rng.choice(docs)], rng.randint(1, 2)):
+            if not gen.step_aligned(target, step):
+                continue
             st, res = outcome(lambda: step.apply(target))
             ok = st == "ok" and res.doc is not None
             ctx.count("single_step_applied_again:" + ("applies" if ok else "refused"))
@@ -436,8 +438,13 @@ def run(ctx):
             history(info, d, docs, ops.STRUCT_OPS + ["set_node_markup", "set_block_type"], rng.randint(1, 4))
             # mark-only histories (wide ranges over mixed marked / unmarked inline content)
             if schema.marks:
-                for _ in range(2):
-                    history(info, d, docs, ops.MARK_OPS, rng.randint(1, 3))
+                history(info, d, docs, ops.MARK_OPS, rng.randint(1, 3))
+                # ... and over a document made of short runs with varied mark sets (neighbouring runs that differ in one mark,
+                # in the attributes of a mark of one type): where the planners have to start a new step and where not
+                md = ctx.guard(lambda: gen.gen_marky_doc(rng, schema), "gen_marky_doc") if rng.random() < 0.6 else None
+                if md is not None:
+                    ctx.count("mark_histories_over_short_marked_runs")
+                history(info, md if md is not None else d, docs, ops.MARK_OPS, rng.randint(1, 3))
     c04_guard.aimed(ctx, rng, gen, undo_single, reqs, metas)
     c04_marks.aimed(ctx, rng, gen, reqs, metas)
     flush()
